@@ -230,7 +230,8 @@ void thread_body(int tid) {
         W->lifecycle_inflight--;
         // stay paused for a while (o.b scheduling points): the others see a smaller set of registered threads meanwhile,
         // down to a single one
-        for (int64_t k = 0; k <= o.b; k++) point(K_HARNESS, nullptr);
+        // (o.c != 0: each of them yields, so that the other threads run on while this one is paused)
+        for (int64_t k = 0; k <= o.b; k++) point(o.c ? K_SPIN : K_HARNESS, nullptr);
         check_thread_count("while paused");
         W->lifecycle_inflight++;
         unodb::this_thread().qsbr_resume();
@@ -342,9 +343,23 @@ struct QsbrEngine final : Engine {
     c.set_knob("prefilled_slots", nslots);
     const bool drain = focus == 6 ? r.chance(0.8) : r.chance(0.4);
     int spawner = nchildren ? static_cast<int>(r.below(static_cast<uint64_t>(ninit))) : -1;
+    // role templates (30 % of the programs): the shapes in which reclamation goes wrong are a reader that quiesces, takes a
+    // reference and keeps it; a writer that retires and then leaves (pause or exit) so that its requests are orphaned; a
+    // thread that is alone for a while because the others start out paused. Random tails follow.
+    Rng tr = stream(seed, S_WORKLOAD + 48);
+    const bool roles = tr.chance(0.3);
     for (int t = 0; t < ninit + nchildren; t++) {
       std::vector<Op> ops;
-      const int n = static_cast<int>(r.range(3, maxsteps));
+      if (roles) {
+        auto mk = [&](int k, int64_t a = 0, int64_t b = 0, int64_t c = 0) { Op o; o.kind = k; o.a = a; o.b = b; o.c = c; return o; };
+        const int64_t slot = static_cast<int64_t>(tr.below(static_cast<uint64_t>(nslots)));
+        const auto role = t == 0 ? 0 : tr.below(3);  // thread 1: the one that stays registered
+        if (role != 0 && tr.chance(0.6)) ops.push_back(mk(Q_PAUSE_RESUME, 0, tr.range(4, 12), 1));  // start out paused, yielding
+        if (role == 0) { for (int k = static_cast<int>(tr.range(1, 3)); k > 0; k--) ops.push_back(mk(Q_QUIESCENT)); }
+        else if (role == 1) { if (tr.chance(0.7)) ops.push_back(mk(Q_QUIESCENT)); ops.push_back(mk(Q_TAKE, slot)); ops.push_back(mk(Q_TOUCH)); if (tr.chance(0.5)) ops.push_back(mk(Q_TOUCH)); }
+        else { if (tr.chance(0.4)) ops.push_back(mk(Q_QUIESCENT)); ops.push_back(mk(Q_RETIRE, slot)); if (tr.chance(0.6)) ops.push_back(mk(Q_PAUSE_RESUME, 0, tr.range(0, 6), 1)); }
+      }
+      const int n = roles ? static_cast<int>(r.range(0, 4)) : static_cast<int>(r.range(3, maxsteps));
       bool spawned = false;
       for (int i = 0; i < n; i++) {
         Op o;
@@ -356,7 +371,7 @@ struct QsbrEngine final : Engine {
         else if (x < 58) o.kind = Q_RETIRE;
         else if (x < 66) o.kind = Q_PUBLISH;
         else if (x < 86) o.kind = Q_QUIESCENT;
-        else { o.kind = Q_PAUSE_RESUME; o.b = r.chance(0.5) ? 0 : r.range(1, 12); }
+        else { o.kind = Q_PAUSE_RESUME; o.b = r.chance(0.5) ? 0 : r.range(1, 12); o.c = r.chance(0.5) ? 1 : 0; }
         if (t == spawner && !spawned && (i == n / 2 || r.chance(0.2))) { o.kind = Q_SPAWN; o.a = ninit; spawned = true; }
         ops.push_back(o);
       }
